@@ -160,6 +160,9 @@ func eval(c Case, sandbox string) hx.Result {
 				p := filepath.Join(base, d)
 				if filepath.Clean(p) != last && !strings.ContainsRune(name, 0) {
 					_ = os.WriteFile(filepath.Join(p, filepath.Base(target)), []byte(`{"cdiVersion":"1.0.0","kind":"`+c.Kind+`","devices":[{"name":"dev","containerEdits":{"env":["SRC=lower"]}}]}`), 0o644)
+					// a second definition of the same device in the same lower directory: a conflict there
+					// must not take the device away from the file written into the last directory
+					_ = os.WriteFile(filepath.Join(p, "zz-conflict.json"), []byte(`{"cdiVersion":"1.0.0","kind":"`+c.Kind+`","devices":[{"name":"dev","containerEdits":{"env":["SRC=lower-conflict"]}}]}`), 0o644)
 				}
 			}
 			if _, e := os.Stat(last); e == nil {
